@@ -54,6 +54,11 @@ pub trait Property: Sync {
     }
     fn rule(&self) -> String;
     fn components(&self) -> Value;
+    /// Rare conditions the workload is meant to reach; one that stays at zero is reported in the evidence and
+    /// printed as a warning (a reason to change the workload, not something to hide).
+    fn expected_probes(&self) -> Vec<&'static str> {
+        Vec::new()
+    }
     /// Additional machinery-level evidence gathered once per check run (e.g. stub conformance for C18).
     fn extra_evidence(&self, _ws: &Ws, _exec: &Executor, _opts: &Opts) -> Result<Option<(String, Value)>, String> {
         Ok(None)
@@ -430,8 +435,9 @@ pub fn replay(ws: &Ws, prop: &dyn Property, file: &str) -> Result<i32, String> {
 }
 
 pub fn run(ws: &Ws, prop: &dyn Property, opts: &Opts) -> Result<i32, String> {
-    let start = Instant::now();
     ws.build(&["simhost"])?;
+    // the time box covers the search only: rebuilding an edited repository must not eat into it
+    let start = Instant::now();
     if !is_root() {
         eprintln!("note: not running as root; permission-based worlds rely on the invoking user's own permissions");
     }
@@ -583,7 +589,10 @@ pub fn run(ws: &Ws, prop: &dyn Property, opts: &Opts) -> Result<i32, String> {
 
     let extra = prop.extra_evidence(ws, &exec, opts)?;
     let wall = start.elapsed().as_secs_f64();
-    let zero_probes: Vec<String> = Vec::new();
+    let zero_probes: Vec<String> = prop.expected_probes().into_iter().filter(|p| !agg.probes.contains_key(*p) && !agg.faults.contains_key(*p)).map(|p| p.to_owned()).collect();
+    for p in &zero_probes {
+        println!("note: probe never hit in this run: {p}");
+    }
     let mut coverage = json!({
         "evaluations": agg.runs,
         "cases": agg.cases,
